@@ -8,7 +8,8 @@
 (***************************************************************************)
 EXTENDS Integers, Sequences, TLC
 
-LegSets == {<<2>>, <<10>>, <<2, 4>>, <<4, 2, 10>>, <<10, 2, 2, 4>>}     \* doubled leg lengths
+\* (<<2, 2>> is realised as an OUT-AND-BACK track: its last way-point is its first one again - a track may revisit a position)
+LegSets == {<<2>>, <<10>>, <<2, 4>>, <<2, 2>>, <<4, 2, 10>>, <<10, 2, 2, 4>>}     \* doubled leg lengths
 RECURSIVE Cum(_, _)
 Cum(L, k) == IF k = 0 THEN 0 ELSE Cum(L, k - 1) + L[k]
 Total(L) == Cum(L, Len(L))
